@@ -204,31 +204,97 @@ theorem updAt_names {l l' : List Cell} {i : Nat} {f : Cell → Option Cell}
       · next hij => subst hij; rw [hget]
       · rfl
 
-/-- ReadyCheckNames stays the list of registered ready names -/
-def namesOK (s : St) : Prop := s.readyNames = s.ready.map (·.res.name)
+/-- the names of the registered ready checks, in registration order -/
+def readyN (s : St) : List String := s.ready.map (·.res.name)
+
+/-- ReadyCheckNames stays the list of registered ready names, and every startup
+    logger's ReadyChecker sits where the logger remembers it, under its name -/
+def namesOK (s : St) : Prop :=
+  s.readyNames = readyN s ∧ ∀ u ∈ s.startups, (readyN s)[u.readyIdx]? = some u.name
+
+theorem Startup.readyRes_name (u : Startup) : u.readyRes.name = u.name := by
+  unfold Startup.readyRes
+  split
+  · split <;> rfl
+  · split <;> rfl
+
+theorem Startup.apply_name (u : Startup) (ev : StartupEv) :
+    (u.apply ev).name = u.name ∧ (u.apply ev).readyIdx = u.readyIdx := by
+  cases ev with
+  | finish e => cases e <;> exact ⟨rfl, rfl⟩
+  | _ => exact ⟨rfl, rfl⟩
+
+theorem getElem?_append_some {α} (l e : List α) (i : Nat) (x : α) (h : l[i]? = some x) :
+    (l ++ e)[i]? = some x := by
+  have := (List.getElem?_eq_some_iff.1 h).1
+  rw [List.getElem?_append_left this]; exact h
+
+theorem set_self {α} (l : List α) (i : Nat) (x : α) (h : l[i]? = some x) : l.set i x = l := by
+  apply List.ext_getElem?
+  intro j
+  rw [List.getElem?_set]
+  split
+  · next hij => subst hij; split <;> simp_all
+  · rfl
 
 theorem namesOK_apply (s s' : St) (op : Op) (hn : namesOK s) (h : s.apply op = some s') : namesOK s' := by
-  unfold namesOK at *
+  obtain ⟨hn1, hn2⟩ := hn
+  unfold namesOK readyN at *
   cases op <;> simp only [St.apply, Option.some.injEq, Option.map_eq_some_iff] at h
-  case regGate n => subst h; simp [St.addReady, hn, newGate]
-  case regReady n st m => subst h; simp [St.addReady, hn, newPlain]
-  case regHealth n st m => subst h; simpa [St.addHealth] using hn
-  case regFresh n st => subst h; simpa [St.addHealth] using hn
+  case regGate n =>
+    subst h
+    refine ⟨by simp [St.addReady, hn1, newGate], fun u hu => ?_⟩
+    simpa [St.addReady] using getElem?_append_some _ [(newGate n).res.name] _ _ (hn2 u hu)
+  case regReady n st m =>
+    subst h
+    refine ⟨by simp [St.addReady, hn1, newPlain], fun u hu => ?_⟩
+    simpa [St.addReady] using getElem?_append_some _ [(newPlain n st m).res.name] _ _ (hn2 u hu)
+  case regHealth n st m => subst h; exact ⟨by simpa [St.addHealth] using hn1, by simpa [St.addHealth] using hn2⟩
+  case regFresh n st => subst h; exact ⟨by simpa [St.addHealth] using hn1, by simpa [St.addHealth] using hn2⟩
   case signal i b =>
     obtain ⟨l, hl, rfl⟩ := h
+    have := updAt_names (fun c c' hc => Cell.signal_name hc) hl
     simp only
-    rw [hn, updAt_names (fun c c' hc => Cell.signal_name hc) hl]
+    exact ⟨by rw [hn1, this], by rw [this]; exact hn2⟩
   case setReady i st m =>
     obtain ⟨l, hl, rfl⟩ := h
-    simp only
-    rw [hn, updAt_names (fun c c' hc => by
+    have := updAt_names (fun c c' hc => by
       split at hc
       · exact Cell.set_name hc
-      · cases hc) hl]
+      · cases hc) hl
+    simp only
+    exact ⟨by rw [hn1, this], by rw [this]; exact hn2⟩
   case setHealth i st m =>
     obtain ⟨l, hl, rfl⟩ := h
-    simpa using hn
-  all_goals (subst h; exact hn)
+    exact ⟨by simpa using hn1, by simpa using hn2⟩
+  case regStartup n =>
+    subst h
+    refine ⟨by simp [St.addReady, St.addHealth, hn1], fun u hu => ?_⟩
+    simp only [St.addReady, St.addHealth, List.mem_append, List.mem_singleton] at hu
+    simp only [St.addReady, St.addHealth, List.map_append, List.map_cons, List.map_nil]
+    rcases hu with hu | rfl
+    · exact getElem?_append_some _ _ _ _ (hn2 u hu)
+    · simp [Startup.readyRes_name]
+  case startupEv k ev =>
+    cases hk : s.startups[k]? with
+    | none => simp [hk] at h
+    | some u =>
+      simp only [hk, Option.some.injEq] at h
+      subst h
+      have hu : u ∈ s.startups := List.mem_of_getElem? hk
+      have hidx := hn2 u hu
+      obtain ⟨ha1, ha2⟩ := Startup.apply_name u ev
+      have hset : (s.ready.set u.readyIdx ⟨Kind.startup, (u.apply ev).readyRes⟩).map (·.res.name)
+          = s.ready.map (·.res.name) := by
+        rw [List.map_set, Startup.readyRes_name, ha1]
+        exact set_self _ _ _ hidx
+      simp only
+      refine ⟨by rw [hn1, hset], fun v hv => ?_⟩
+      rw [hset]
+      rcases List.mem_or_eq_of_mem_set hv with hv | rfl
+      · exact hn2 v hv
+      · rw [ha1, ha2]; exact hidx
+  all_goals (subst h; exact ⟨hn1, hn2⟩)
 
 /-- **C33 (sequential)** — the run-time statement checker accepts what the model
     answers on every sequence of registrations, signals, answer changes and requests. -/
@@ -241,7 +307,7 @@ theorem C33_holdsOn (s : St) (ops : List Op) (hn : namesOK s) : holdsOn s (trace
     · cases op <;> simp only [obsOfModel]
       case ready => exact readyOK_model s
       case health => exact healthOK_model s
-      case names => simp only [answers, List.map_map, beq_iff_eq]; exact hn
+      case names => simp only [answers, List.map_map, beq_iff_eq]; exact hn.1
     · apply ih
       cases h : s.apply op with
       | none => simpa using hn
@@ -265,6 +331,10 @@ theorem repaired_code_reports_failure :
     (health false maskedSt).code = 503 ∧ (health false maskedSt).message = "down" ∧
     (ready false maskedSt).code = 503 := by
   decide
+
+/-- **C33 (sequential), from a fresh handler** — no hypothesis left. -/
+theorem C33_holdsOn_fresh (ops : List Op) : holdsOn {} (trace {} ops) = true :=
+  C33_holdsOn {} ops ⟨rfl, by intro u hu; cases hu⟩
 
 /-! ### concurrent registration, signalling and requests -/
 
